@@ -704,6 +704,44 @@ pub fn strategy() -> BoxedStrategy<Scenario> {
         .boxed()
 }
 
+/// Clamp a structurally decoded scenario into the generator's domain (fuzz tier).
+pub fn fuzz_sanitize(sc: &mut Scenario) -> bool {
+    sc.tick_ms = 1 + sc.tick_ms % 3;
+    sc.lat_min %= 9;
+    sc.lat_max = sc.lat_min + sc.lat_max % 13;
+    if sc.lat_min == sc.lat_max && sc.lat_min == 0 {
+        sc.lat_min = 1;
+        sc.lat_max = 1;
+    }
+    sc.bind_step = 1 + sc.bind_step % 11;
+    sc.accept_step = sc.bind_step + sc.accept_step % 14;
+    sc.drop_step = sc.drop_step.map(|d| sc.bind_step + 4 + d % 26);
+    sc.rebind_step = match (sc.drop_step, sc.rebind_step) {
+        (Some(d), Some(r)) => Some(d + 1 + r % 11),
+        _ => None,
+    };
+    sc.conns.truncate(7);
+    for c in sc.conns.iter_mut() {
+        c.from %= 3;
+        c.step = 1 + c.step % 35;
+        c.timeout_steps = c.timeout_steps.map(|w| w % 14);
+    }
+    let first = sc.faults.first().cloned();
+    sc.faults = match first {
+        Some((a, k)) => {
+            let base = 2 + a % 28;
+            let d = 1 + (a >> 8) % 9;
+            if k % 2 == 0 {
+                vec![(base, 0), (base + d, 1)]
+            } else {
+                vec![(base, 2), (base + d, 3)]
+            }
+        }
+        None => vec![],
+    };
+    !sc.conns.is_empty()
+}
+
 fn check(tier: Tier, seed: u64) -> i32 {
     let ctx = Ctx::new("C12", tier, seed, "exploration");
     ctx.replay_corpus(&replay);
